@@ -253,7 +253,8 @@ class Engine:
             "wide": rng.random() < 0.25,
         }
         w = {"mk": 14, "copy": 8, "stack": 6, "apply": 14, "reshape": 6, "flatten": 6, "index": 8,
-             "setitem": 10, "combine": 7, "astype": 4, "setter": 5, "query": 22, "reject": 1, "drop": 3}
+             "setitem": 10, "combine": 7, "astype": 4, "setter": 5, "query": 22, "reject": 1, "drop": 3,
+             "scribble": 3}
         style = rng.choice(["flat", "query", "setitem", "apply", "shape"])
         if style == "shape":
             for g in ("reshape", "flatten", "index", "stack", "combine"):
@@ -480,6 +481,12 @@ class Engine:
                      and not o.cplx]
             op["other"] = rng.choice(mates).id
         return op
+
+    def _gen_scribble(self, rng, world):
+        if not world.buffers:
+            return None
+        bid = rng.choice(sorted(world.buffers))
+        return {"op": "scribble", "b": bid, "factor": rng.choice([-3.0, 0.0, 2.5]), "shift": rng.uniform(-1, 1)}
 
     def _gen_reject(self, rng, world):
         h = self._pick(rng, world)
@@ -829,6 +836,20 @@ class Engine:
             world.stats["query_raised." + q] += 1
         world.stats["query." + q] += 1
         return out
+
+    def _do_scribble(self, world, op, vs):
+        """the caller overwrites, in place, an array it passed to the library earlier; every object
+        built from it must be unaffected"""
+        bid = op["b"]
+        if bid not in world.buffers:
+            return "skipped:no-buffer"
+        arr, snap, layout = world.buffers[bid]
+        arr *= float(op["factor"])
+        arr += float(op["shift"])
+        world.buffers[bid] = (arr, np.array(arr, dtype=np.float64), layout)
+        world.stats["probe.caller_scribbled_on_its_buffer"] += 1
+        world.nontrivial = True
+        return "ok"
 
     def _do_x_reject(self, world, op, vs):
         h = world.handles[op["h"]]
